@@ -3,6 +3,7 @@
 ENGINES = {
     # engine name -> where its harness files go inside the scratch copy
     "attack": {"dir": "internal/zzsim/attack"},
+    "stream": {"dir": "internal/zzsim/stream", "common": True},
 }
 
 ATTACK_REAL = ["lib.Attacker.Attack / attack / hit / Stop (instrumented copy of the working tree)", "net/http.Client on top of the fake transport",
@@ -31,4 +32,22 @@ SPECS = {
             "not_simulated": ["real scheduling noise: the fake clock gives exact wake-ups, only lower bounds are asserted"]},
     "C05": {"jobs": attack_jobs("C05", 40000, 4000000, 3000, 200000), "rule": ATTACK_RULE, "real": ATTACK_REAL, "stub": ATTACK_STUB, "assumptions": ATTACK_ASSUME,
             "not_simulated": ["wall-clock steps (synctest has a single clock)"]},
+    "C07": {"jobs": [{"engine": "stream", "scenario": "codec-C07", "race": False, "quick": 6000, "thorough": 600000}],
+            "rule": "one evaluation = a sequence of 0..40 results generated field by field by reflection over vegeta.Result, encoded with each of the three encoders into a SimFile and decoded through a SimReader whose chunk sizes, (n>0,EOF) and zero-length reads come from the tape; CSV and JSON bytes are also parsed by an independent reader of the documented layout; non-trivial = at least one record; distinct = distinct event-log hashes (sizes, write/read call counts)",
+            "real": ["gob/CSV/JSON encoders and decoders of lib/results.go and results_easyjson.go"], "stub": ["io.Writer (SimFile) and io.Reader (SimReader)"],
+            "not_simulated": ["the quantifier over result values is served by seeded workload generation, not by the simulator; what the simulator varies is read/write delivery"],
+            "assumptions": ["weak equality: nil and empty bodies/header maps are equal, timestamps compare as instants", "encoding/csv, encoding/json and encoding/base64 are correct (independent reader)"]},
+    "C08": {"jobs": [{"engine": "stream", "scenario": "detect-C08", "race": False, "quick": 12000, "thorough": 1200000}],
+            "rule": "one evaluation = (a) a valid stream of 1..60 records in one encoding, written by vegeta or by the independent writer of the documented layout, sniffed by DecoderFor through a chunking SimReader, or (b) an input in none of the formats, or (c) a transcoding chain of length 1..4 at library level (the encode command itself runs in the cmd engine, property C13/C08 there); distinct = distinct event-log hashes",
+            "real": ["DecoderFor, the three decoders and encoders"], "stub": ["readers (SimReader), files (SimFile)"],
+            "assumptions": ["text fields without carriage returns (see known finding F-C07-csv-crlf)"]},
+    "C09": {"level": "fault_enumeration", "jobs": [{"engine": "stream", "scenario": "trunc-C09", "race": False, "quick": 1600, "thorough": 160000}],
+            "rule": "one evaluation = one generated stream (1..12 heterogeneous records, bodies up to 100 KiB) cut at EVERY byte offset (gob, JSON; streams above 12 kB: every offset within 400 bytes of a record boundary plus every 97th) or every record boundary (CSV); each prefix is decoded and compared with the records completely written before the cut; distinct = distinct (format, sizes, cut count) logs; fault.cut counts the cut points actually decoded",
+            "real": ["gob/CSV/JSON encoders and decoders"], "stub": ["the file (SimFile recording Write-call boundaries) and the crash (prefix of the bytes)"],
+            "assumptions": ["a crash keeps a prefix of the byte sequence (no reordering of bytes within a file)"]},
+    "C13": {"jobs": [{"engine": "stream", "scenario": "multi-C13", "race": False, "quick": 20000, "thorough": 2000000}],
+            "rule": "one evaluation = a result sequence split over 1..6 inputs (unequal, empty, single-record parts) in tape-chosen encodings, merged by NewRoundRobinDecoder over chunking SimReaders, in a quarter of the runs with a read error injected into one input; distinct = distinct event-log hashes",
+            "real": ["NewRoundRobinDecoder, decoders"], "stub": ["readers"],
+            "not_simulated": ["report()/encode() over split files: cmd engine (when built)"],
+            "assumptions": ["after a read error only the failing input's own remaining records may be missing"]},
 }
